@@ -24,7 +24,7 @@ from props import extlib, imglib
 
 ID = 'C05'
 COQ_PROPS = ['Props/C05.v', 'Props/C05img.v', 'Props/C05total.v']
-THEOREMS = ['C05_split_all_total', 'C05_split_merge_total', 'C05_split_merge_mod_none_total', 'C05_chain_total',
+THEOREMS = ['C05w_split_merge', 'C05_split_all_total', 'C05_split_merge_total', 'C05_split_merge_mod_none_total', 'C05_chain_total',
             'C05_canonical_unique', 'C05_canonical_unique_key', 'C05_canonical_unique_strict',
             'C05_split_merge', 'C05_split_merge_mod_none', 'C05_split_all_defined',
             'C05_split_merge_trailing1_refuted', 'C05_split_merge_no_slice_dim_refuted',
